@@ -247,6 +247,7 @@ Proof.
   - mb Ht as vl s1 H1 H2. mb H2 as vr s2 H2 H3. mb H3 as a s3 H3 H4. mr H4. eauto.
   - inversion Ht; subst. eauto.
   - exact (IHe Hp used s vs s' Ht).
+  - apply andb_true_iff in Hp as [Hp Hstr]. mb Ht as vx s1 H1 H2. rewrite Hstr in H2. mb H2 as a s2 H2 H3. mr H3. eauto.
   - mb Ht as vx s1 H1 H2. mr H2. eauto.
 Qed.
 
